@@ -106,6 +106,9 @@ def run(ctx):
             stats["second_error_same_task"] += 1
         if kind == "caught" and len(an["errors"]) >= 2:
             stats["nested_pass_through"] += 1
+        passed_catch = any(m.get("catches") for m in ch)
+        if kind == "caught" or (kind == "uncaught" and passed_catch):
+            # an error that a catch took, or that went past at least one catch list that did not match
             ctx.nontrivial([sc["models"], sc["ops"][: i + 1]])
         bad = None
         # members below the catcher (and the act itself) are marked with the original code
@@ -187,7 +190,7 @@ def run(ctx):
     ctx.sample({"scenario": scs[0]["id"], "model": scs[0]["models"][0], "ops": scs[0]["ops"][:8]}, limit=1)
     ctx.cov["correspondence"] = {"distribution": stats, "streams_compared": ["transitions/creations/error events of every error action vs Catch.bubble on the pre-error chain", "whole stepped run vs Op model"]}
     ctx.cov["rule"] = ("catches at act and step level, nested two deep, several codes, catch-all, empty catch, several catches with the same code; errors e1/e2/e3 raised at any open act, "
-                       "repeatedly, with other acts open; non-trivial = an error that passes at least one member before a catch takes it; distinct by (model, op prefix)")
+                       "repeatedly, with other acts open; non-trivial = an error that a catch takes, or that goes past at least one catch list that does not match; distinct by (model, op prefix)")
     ctx.cov["clauses_proved"] = ["first matching catch wins", "nearest open member with an unused matching catch takes the error; below marked, above untouched", "uncaught: all marked",
                                  "once-flag", "non-matching catch is a no-op", "caught error is silent (K1 emit table)"]
     ctx.cov["clauses_not_proved"] = ["the catching task completes and its successor starts (operational model correspondence + C01/C03 monitors)"]
